@@ -108,6 +108,10 @@ TABLE.update({
     "c05_lowering_dispatch_swaps_conditions.diff": ("contracts.c05b", "MemoryLowerer._lower_latch_write", None),
     "c05_lowering_latch_as_standard_write.diff": ("contracts.c05b", "lower_write_expr", None),
     "c03_read_wrong_cell_type.diff": ("contracts.c05b", "lower_read_expr", None),
+    "c14_decl_mismatch_not_reported.diff": ("contracts.c14b", "visit_DeclStmt", None),
+    "c14_decl_redefinition_swallowed.diff": ("contracts.c14b", "visit_DeclStmt", None),
+    "c14_assign_immutable_allowed.diff": ("contracts.c14b", "visit_AssignStmt", "name = expression"),
+    "c14_assign_undefined_entity_allowed.diff": ("contracts.c14b", "visit_AssignStmt", "entity.property"),
     "c08_preserved_shares_network_zero.diff": ("contracts.c12", "_restore_preserved_connection", None),
     "c08_preserved_routing_failure_ignored.diff": ("contracts.c12", "_restore_preserved_connection", None),
     "c08_preserved_span_doubled.diff": ("contracts.c12", "_restore_preserved_connection", None),
